@@ -443,10 +443,11 @@ def wildcard_cells(ctx):
         class W(HasTraits):
             slot_ = Instance(Leaf)
         w = W()
+        w0 = W()
         calls = []
 
         def h(ev):
-            calls.append((getattr(ev, "name", None), ev.object))
+            calls.append((getattr(ev, "name", None), id(ev.object)))
         try:
             w.observe(h, exprs[ename]())
             if first == "read-then-assign":
@@ -479,6 +480,30 @@ def wildcard_cells(ctx):
                     **case)
                 continue
             ctx.outcome("probe-called")
+        # a second instance of the class, created before or after, observed
+        # by nobody and unreachable from the first
+        for when, other in (("before", w0), ("after", W())):
+            calls.clear()
+            other_leaf = Leaf()
+            other.slot_a = other_leaf
+            other_leaf.value += 1
+            other.slot_a = None
+            if calls:
+                ctx.violation(
+                    "C08:wildcard:other-instance:%s:%s" % (ename, when),
+                    "an instance nobody observes (created %s the observed "
+                    "one used the name) had its attribute and the object in "
+                    "it changed: the handler was called %d time(s)"
+                    % (when, len(calls)), **case)
+                break
+            ctx.outcome("probe-silent-detached")
+        calls.clear()
+        w.slot_a = Leaf()
+        if len([c for c in calls if c[0] == "slot_a"]) != 1:
+            ctx.violation(
+                "C08:wildcard:link-event-later:%s:%s" % (ename, first),
+                "after other instances used the name too, re-assigning it on "
+                "the observed instance gave %d event(s)" % len(calls), **case)
 
 
 #: expressions with large menus: events on the root only, one level less
